@@ -308,7 +308,7 @@ class Inline:
 class Contract:
     def __init__(self, file, func, params=None, requires=None, ensures=None, loops=None, instances=None,
                  callees=None, modifies=(), result=None, raises=None, ghost=None, options=None, name=None,
-                 notes=None, attrs=None, checks=None):
+                 notes=None, attrs=None, checks=None, call_requires=None):
         self.file, self.func = file, func
         self.params = params or {}
         self.requires, self.ensures = requires, ensures
@@ -326,6 +326,15 @@ class Contract:
         # checks: [(regex on the source line of a statement, fn(view) -> [(label, formula)])]: obligations that
         # must hold immediately *before* every statement whose line matches (write-time contracts)
         self.checks = checks or []
+        # call_requires: the precondition as checked at call sites when `requires` mentions ghost parameters (the ghost
+        # parameters are the skolem witnesses of call_requires' existentials)
+        self.call_requires = call_requires
 
     def __repr__(self):
         return '<Contract %s>' % self.name
+
+
+def vop(opname, *args):
+    """the executor's uninterpreted vector operation (same symbol as the one it emits for the program's operator)"""
+    from .values import vec_op
+    return vec_op(opname, *args)
